@@ -133,7 +133,7 @@ func init() {
 	run.Register(run.Prop[HistCase]{
 		ID:    "C05",
 		Level: "exploration",
-		Rule: "case = configuration (8 key types x 4 value types x both formats x default-JSON / custom codec with registered types x 7 cache kinds) + fill + program of <=60/120 ops with frequent persist/reload (Root passed directly or through json.Marshal/Unmarshal); at EVERY persist the returned root is loaded four ways (direct / via JSON x shared cache / cache-less) and compared entry by entry (typed DeepEqual), plus Size, Height, BranchFactor and NodeFormat; the program keeps operating on reloaded trees; the root is also opened WITHOUT ValuesLike (a read-only opening that names no value type; not judged if refused): every key must be there, in order, with Size, and Get must find each. " +
+		Rule: "case = configuration (11 key types x 10 value kinds incl. float64 with both zeros x both formats x default-JSON / custom codec with registered types x 7 cache kinds) + fill + program of <=60/120 ops with frequent persist/reload (Root passed directly or through json.Marshal/Unmarshal); at EVERY persist the returned root is loaded four ways (direct / via JSON x shared cache / cache-less) and compared entry by entry (typed DeepEqual), plus Size, Height, BranchFactor and NodeFormat; the program keeps operating on reloaded trees; the root is also opened WITHOUT ValuesLike (a read-only opening that names no value type; not judged if refused): every key must be there, in order, with Size, and Get must find each. " +
 			"Non-trivial = >=2 reloads, one of them of a tree of height >= 1, and a mutation after a reload; distinct by case hash",
 		Assumptions: []string{"only key/value types whose encoding round-trips are generated (the property's own restriction)"},
 		Gen:         genC05,
